@@ -398,6 +398,16 @@ def _obj_class():
                 self.count += 1
                 return self.count
 
+            @rpc.rpc_method
+            def __enter__(self):            # `with proxy:` is two ordinary RPC calls, subject to the lock like any other
+                self.count += 1
+                return self.count
+
+            @rpc.rpc_method
+            def __exit__(self, *args):
+                self.count += 1
+                return self.count
+
         _state["obj_class"] = C04TestObject
         _state["obj_class_mod"] = rpc
     return _state["obj_class"]
@@ -495,6 +505,8 @@ class _World:
         self.burners = {}
         self.auto_log = []
         self.workers = {}
+        self.owner_proxy = {}
+        self.pctx = list(hist["proxies"])
         self.obj = None
 
     def ctx_index(self, cx) -> int:
@@ -509,11 +521,13 @@ class _World:
     def _make_object(self, name):
         import qmi.core.rpc as rpc
         before = set(threading.enumerate())
-        self.srv.make_rpc_object(name, _obj_class())
+        self.owner_proxy[name] = self.srv.make_rpc_object(name, _obj_class())
         new = [t for t in threading.enumerate() if t not in before and isinstance(t, rpc._RpcThread)]
         if len(new) != 1:
             raise RuntimeError(f"expected exactly one new _RpcThread for {name}, saw {len(new)}")
         self.workers[name] = new[0]
+        if name == "obj":
+            self.obj = _obj_class().registry[(id(self.srv), "obj")]
 
     def start(self):
         from qmi.core.config_defs import CfgQmi, CfgContext
@@ -555,6 +569,24 @@ class _World:
         from qmi.core.exceptions import QMI_RpcTimeoutException, QMI_RuntimeException
         kind = op[0]
         try:
+            if kind == "recreate":          # the owning context removes the object and creates it again under the same name
+                self.srv.remove_rpc_object(self.owner_proxy["obj"])
+                self._make_object("obj")
+                return "ok"
+            if kind == "stopctx":           # a client context disconnects
+                self.contexts[op[1]].stop()
+                return "ok"
+            if kind == "newctx":
+                from qmi.core.context import QMI_Context
+                c = QMI_Context(op[1])
+                self.contexts.append(c)
+                c.start()
+                c.connect_to_peer(self.hist["srv"], f"127.0.0.1:{self.srv.get_tcp_server_port()}")
+                return str(len(self.contexts) - 1)
+            if kind == "newproxy":
+                self.proxies.append(self.contexts[op[1]].get_rpc_object_by_name(f"{self.hist['srv']}.obj"))
+                self.pctx.append(op[1])
+                return str(len(self.proxies) - 1)
             if kind == "burn":
                 ci = op[1]
                 if ci not in self.burners:
@@ -574,6 +606,11 @@ class _World:
             elif kind == "call":
                 if op[2] == "n":
                     r = px.rpc_nonblocking.bump().wait()
+                elif op[2] == "w":          # the context-manager form: RPC __enter__, then RPC __exit__
+                    with px as entered:
+                        if entered is not px:
+                            return "val:with-returned-something-else"
+                    r = self.obj.count
                 else:
                     r = px.bump()
                 return f"ran {r}"
@@ -620,6 +657,8 @@ def _op_line(op) -> str:
         return f"{k} {op[1]} " + ("-" if op[2] is None else "=" + op[2])
     if k == "call":
         return f"call {op[1]} {op[2]}"
+    if k == "recreate":
+        return "recreate"
     return f"{k} {op[1]}"
 
 
@@ -648,17 +687,29 @@ def run_history(hist: dict):
             out = w.do_op(op)
             pr = w.probe()
             owner_after = w.owner()
-            lines += [_op_line(op), "probe", "owner"]
+            if op[0] == "newctx":
+                lines += [f"ctx {op[1]} " + (getattr(w.contexts[-1], "_instance_id", "") or "-"), "probe", "owner"]
+            elif op[0] == "newproxy":
+                lines += [f"proxy {op[1]}", "probe", "owner"]
+            elif op[0] == "call" and op[2] == "w":
+                # model: two blocking calls if the first one got through, else one refused call
+                if out.startswith("ran "):
+                    lines += [f"call {op[1]} b", f"call {op[1]} b", "probe", "owner"]
+                    outs += [f"ran {count_before + 1}"]
+                else:
+                    lines += [f"call {op[1]} b", "probe", "owner"]
+            else:
+                lines += [_op_line(op), "probe", "owner"]
             outs += [out, pr, _show_tok(owner_after)]
             ev = {"op": list(op), "out": out, "probe": pr, "owner_before": owner_before, "owner_after": owner_after,
                   "count_before": count_before, "count_after": w.obj.count, "auto": list(w.auto_log[n_auto:])}
-            if op[0] != "burn":
+            if op[0] not in ("burn", "recreate", "stopctx", "newctx", "newproxy"):
                 t = w.toks(op[1])
                 ev["toks"] = t
                 lines.append(f"tok {op[1]}")
                 outs.append(_show_tok(t[0]) + " " + _show_tok(t[1]))
                 if op[0] == "lock" and op[2] is None:
-                    ci = hist["proxies"][op[1]]
+                    ci = w.pctx[op[1]]
                     lines.append(f"counter {ci}")
                     outs.append(str(w.contexts[ci]._unique_counters.get("$lock_", 0)))
             trace.append(ev)
@@ -692,7 +743,12 @@ def oracle(hist: dict, trace: list):
     """Returns a list of (signature, detail, op index).  Token collisions are reported without stopping; the first
     behavioural failure ends the evaluation (everything after it is a consequence)."""
     names = [hist["srv"]] + list(hist["ctxs"])
-    pctx = hist["proxies"]
+    pctx = list(hist["proxies"])
+    for ev in trace:                       # contexts / proxies created during the history
+        if ev["op"][0] == "newctx":
+            names.append(ev["op"][1])
+        elif ev["op"][0] == "newproxy":
+            pctx.append(ev["op"][1])
     fails = []
 
     def ctxrel(ci, cj):
@@ -719,7 +775,7 @@ def oracle(hist: dict, trace: list):
             k += 1
 
     period = None            # {"grant": (...), "starter": p, "entitled": set()}
-    supplied = {p: set() for p in range(len(pctx))}
+    supplied = {p: set() for p in range(len(pctx) + 8)}
     serial = 0
     for i, ev in enumerate(trace):
         op, out, kind = ev["op"], ev["out"], ev["op"][0]
@@ -743,6 +799,19 @@ def oracle(hist: dict, trace: list):
         if not ev["probe"].startswith("alive"):
             return F(f"object-disabled:{okind}:{st}", f"the request was answered ({out}) but the object no longer serves: {ev['probe']}")
         before, after = ev["owner_before"], ev["owner_after"]
+        if kind == "recreate":
+            # a new object under the old name: unlocked, nothing executed yet; whatever a proxy remembers is stale
+            if after is not None or ev["count_after"] != 0:
+                return F("recreated-object-not-fresh", f"owner {after}, counter {ev['count_after']}")
+            period = None
+            continue
+        if kind in ("stopctx", "newctx", "newproxy"):
+            if before != after:
+                which = {"stopctx": "lock-changed-by-disconnect", "newctx": "lock-changed-by-connect", "newproxy": "lock-changed-by-new-proxy"}[kind]
+                return F(which, f"owner {before} -> {after}")
+            if ev["count_after"] != ev["count_before"]:
+                return F(f"side-effect-without-call:{okind}", "counter changed")
+            continue
         ran = ev["count_after"] - ev["count_before"]
         if kind != "call" and ran != 0:
             return F(f"side-effect-without-call:{okind}", f"method body ran {ran} time(s) during a {kind} request")
@@ -821,7 +890,7 @@ def oracle(hist: dict, trace: list):
             grey = (period is not None and period["grant"][0] == "custom" and period["grant"][1] == names[ci]
                     and period["grant"][2] in supplied[p])
             if out.startswith("ran "):
-                if ran != 1 or out != f"ran {ev['count_after']}":
+                if ran != (2 if op[2] == "w" else 1) or out != f"ran {ev['count_after']}":
                     return F(f"call-result-inconsistent:{okind}", f"reply {out}, body ran {ran} time(s), counter {ev['count_after']}")
                 if ideal_locked and not entitled and not grey:
                     sc = pctx[period["starter"]]
@@ -868,31 +937,104 @@ def gen_history(rng, max_ops: int) -> dict:
         proxies[0], proxies[1] = 1, min(2, nctx - 1)
     n = rng.randint(1, max_ops) if rng.random() < 0.4 else rng.randint(max(1, max_ops // 2), max_ops)
     ops = []
-    # a rough prediction of the lock state, only used to bias the choice of operations
-    locked = False
+    names = [srv] + list(ctxs)            # grows with "newctx"
+    pctx = list(proxies)                  # grows with "newproxy"
+    stopped = set()
     while len(ops) < n:
-        p = rng.randrange(nprox)
+        usable = [q for q in range(len(pctx)) if pctx[q] not in stopped]
+        if not usable:                                  # everybody disconnected: a proxy in the owning context
+            ops.append(["newproxy", 0])
+            pctx.append(0)
+            continue
+        p = rng.choice(usable)
         k = rng.random() * 100
-        if k < 26:
+        if k < 25:
             ops.append(["lock", p, rng.choice(_CUSTOMS) if rng.random() < 0.4 else None])
-            locked = True
-        elif k < 44:
+        elif k < 42:
             ops.append(["unlock", p, rng.choice(_CUSTOMS) if rng.random() < 0.35 else None])
-            if rng.random() < 0.4:
-                locked = False
-        elif k < 51:
-            if locked or rng.random() < 0.12:
-                ops.append(["force", p])
-                locked = False
-            else:
-                ops.append(["islocked", p])
-        elif k < 63:
+        elif k < 49:
+            ops.append(["force", p])
+        elif k < 60:
             ops.append(["islocked", p])
-        elif k < 95:
-            ops.append(["call", p, "n" if rng.random() < 0.35 else "b"])
+        elif k < 90:
+            ops.append(["call", p, rng.choice(["n", "n", "n", "w", "b", "b", "b", "b", "b"])])
+        elif k < 94:
+            ops.append(["burn", rng.choice([c for c in range(len(names)) if c not in stopped])])
+        elif k < 96:
+            ops.append(["recreate"])
+        elif k < 98:
+            live = [c for c in range(1, len(names)) if c not in stopped]
+            if live:
+                c = rng.choice(live)
+                ops.append(["stopctx", c])
+                stopped.add(c)
+                if rng.random() < 0.7:                  # somebody comes back under the same (or another) name
+                    ops.append(["newctx", names[c] if rng.random() < 0.7 else rng.choice(["cli", "gui", "cal"])])
+                    names.append(ops[-1][1])
+                    ops.append(["newproxy", len(names) - 1])
+                    pctx.append(len(names) - 1)
         else:
-            ops.append(["burn", rng.randrange(nctx)])
+            if len(names) < 6:
+                ops.append(["newctx", rng.choice(names[1:] + ["cli", "cal"])])
+                names.append(ops[-1][1])
+            c = rng.choice([c for c in range(len(names)) if c not in stopped])
+            ops.append(["newproxy", c])
+            pctx.append(c)
     return {"srv": srv, "ctxs": ctxs, "proxies": proxies, "ops": ops}
+
+
+def corpus_histories() -> list:
+    """Fixed corpus, run first on every seed: documented scenarios, related names, boundary values, the same operation
+    twice, unusual orders, removal / re-creation, disconnect."""
+    H = []
+
+    def add(name, srv, ctxs, proxies, ops):
+        H.append({"srv": srv, "ctxs": ctxs, "proxies": proxies, "ops": ops, "cell": "corpus/" + name})
+    # rpc.py docstring, example 1: two proxies in the same context share a custom token
+    add("doc-example-1", "my_context", [], [0, 0],
+        [["lock", 0, "thisismineallmine"], ["islocked", 1], ["call", 1, "b"], ["unlock", 1, "thisismineallmine"], ["islocked", 1]])
+    # rpc.py docstring, example 2: lock with a custom token, disconnect, a same-named context unlocks
+    add("doc-example-2", "c1", ["c2"], [1],
+        [["islocked", 0], ["lock", 0, "block"], ["islocked", 0], ["stopctx", 1], ["newctx", "c2"], ["newproxy", 2],
+         ["islocked", 1], ["unlock", 1, None], ["unlock", 1, "block"], ["islocked", 1]])
+    # the owner disconnects holding an automatic token: nobody can unlock, force_unlock is the way out
+    add("owner-gone", "srv", ["cli"], [1, 0],
+        [["lock", 0, None], ["stopctx", 1], ["islocked", 1], ["call", 1, "b"], ["newctx", "cli"], ["newproxy", 2], ["lock", 2, None],
+         ["unlock", 2, None], ["call", 2, "n"], ["force", 2], ["islocked", 1], ["lock", 2, None], ["call", 2, "b"]])
+    # removal and re-creation under the same name: stale automatic / custom tokens
+    add("recreate-stale-auto", "srv", ["cli", "gui"], [1, 2],
+        [["lock", 0, None], ["call", 0, "b"], ["recreate"], ["islocked", 1], ["call", 0, "b"], ["call", 1, "n"], ["lock", 1, None],
+         ["call", 0, "b"], ["unlock", 0, None], ["islocked", 0], ["call", 1, "b"], ["recreate"], ["recreate"], ["unlock", 1, None]])
+    add("recreate-stale-custom", "srv", ["cli", "cli"], [1, 2, 0],
+        [["lock", 0, "x"], ["recreate"], ["call", 0, "b"], ["lock", 1, "x"], ["call", 0, "n"], ["unlock", 0, None], ["islocked", 2],
+         ["lock", 2, "x"], ["recreate"], ["force", 2]])
+    # the same operation twice; unusual orders
+    add("twice", "srv", ["cli"], [1, 0],
+        [["unlock", 0, None], ["unlock", 0, None], ["force", 0], ["force", 1], ["islocked", 0], ["islocked", 0], ["lock", 0, None],
+         ["lock", 0, None], ["lock", 0, "x"], ["lock", 1, "x"], ["call", 0, "b"], ["call", 0, "b"], ["unlock", 0, None], ["unlock", 0, None],
+         ["lock", 1, "x"], ["lock", 1, "x"], ["lock", 0, "x"], ["unlock", 1, "x"], ["unlock", 1, "x"], ["force", 0], ["force", 0]])
+    # related names: prefix / suffix / case of context names and of custom tokens, near-placeholders
+    add("related-context-names", "srv", ["cli", "cli2", "Cli", "cli_"], [1, 2, 3, 4],
+        [["lock", 0, "x"], ["lock", 1, "x"], ["lock", 2, "x"], ["lock", 3, "x"], ["unlock", 1, "x"], ["unlock", 3, "x"], ["call", 2, "b"],
+         ["unlock", 0, "x"], ["lock", 1, None], ["lock", 0, None], ["call", 0, "b"], ["unlock", 1, None], ["lock", 2, None]])
+    add("related-tokens", "srv", ["cli"], [1, 1, 0],
+        [["lock", 0, "x"], ["lock", 1, "X"], ["lock", 1, "xx"], ["lock", 1, "x_"], ["unlock", 1, "X"], ["unlock", 1, ""], ["unlock", 1, "x"],
+         ["lock", 0, "$lock"], ["lock", 1, "$lock_"], ["unlock", 1, "$lock_"], ["unlock", 0, "$lock"],
+         ["lock", 0, "__ACCESS_DENIED_"], ["lock", 2, "__ACCESS_DENIED___"], ["lock", 2, "__ACCESS_DENIED__"], ["lock", 2, "__OBJECT_LOCKED__"],
+         ["lock", 2, "__OBJECT_LOCKED__x"], ["unlock", 2, "__ACCESS_DENIED__"], ["unlock", 0, "__ACCESS_DENIED_"], ["lock", 2, "__ACCESS_DENIED__"],
+         ["lock", 2, "__access_denied__"], ["call", 2, "b"], ["unlock", 2, "__OBJECT_LOCKED__"], ["unlock", 2, None]])
+    # boundary of the counter: 9 -> 10 -> 11 (width of the decimal part of the token changes)
+    add("counter-9-10-11", "srv", ["cli"], [1, 1],
+        [["burn", 1]] * 8 + [["lock", 0, None], ["unlock", 0, None], ["lock", 1, None], ["call", 0, "b"], ["lock", 0, None], ["unlock", 1, None],
+                             ["lock", 0, None], ["call", 0, "n"], ["call", 1, "b"]])
+    # `with proxy:` while free, while held by oneself, while held by somebody else
+    add("with-form", "srv", ["cli"], [1, 0],
+        [["call", 0, "w"], ["lock", 0, None], ["call", 0, "w"], ["call", 1, "w"], ["call", 1, "b"], ["unlock", 0, None], ["call", 1, "w"]])
+    # only the owning context
+    add("owning-context-only", "lab", [], [0, 0, 0],
+        [["call", 0, "b"], ["lock", 1, None], ["call", 0, "n"], ["call", 1, "n"], ["lock", 2, None], ["force", 0], ["lock", 2, "lab"],
+         ["unlock", 1, "lab"], ["islocked", 2]])
+    return H
 
 
 def sweep_histories() -> list:
@@ -1219,6 +1361,135 @@ def conc_specs(rng, quick: bool) -> list:
 
 
 # ---------------------------------------------------------------------------
+# retry family: lock(timeout > 0) under the virtual clock of the deterministic scheduler
+# ---------------------------------------------------------------------------
+#
+# spec = {"kind": "retry", "seed": n, "timeout_ms": T, "release_ms": D | None, "holder": ctx idx | None, "waiter": ctx idx,
+#         "ctxs": [client names], "custom_h": str|None, "custom_w": str|None}
+# The holder (if any) locks first; then the waiter calls lock(timeout=T/1000) while the holder sleeps D ms (virtual) and
+# unlocks.  T and D are never multiples of the 100 ms period (floats are not compared at a boundary).
+
+def run_retry(spec: dict):
+    from harness.simworld import run_scenario
+    import qmi.core.rpc as rpc
+    with _ConcTaps() as taps:
+        def body(w):
+            srv = w.context("srv", server=True)
+            srv.make_rpc_object("obj", _conc_obj_class())
+            ctxs = [srv]
+            for nm in spec["ctxs"]:
+                c = w.context(nm)
+                w.connect(c, srv)
+                ctxs.append(c)
+            for i, c in enumerate(ctxs):
+                taps.ctx_ids[id(c)] = i
+            pw = ctxs[spec["waiter"]].get_rpc_object_by_name("srv.obj")
+            ph = ctxs[spec["holder"]].get_rpc_object_by_name("srv.obj") if spec["holder"] is not None else None
+            taps.sched = w.sched
+            held = ph.lock(lock_token=spec["custom_h"]) if ph is not None else None
+            clock = rpc.time
+            t0 = clock.monotonic()
+
+            def waiter():
+                r = pw.lock(timeout=spec["timeout_ms"] / 1000.0, lock_token=spec["custom_w"])
+                return (r, clock.monotonic() - t0)
+
+            def holder():
+                clock.sleep(spec["release_ms"] / 1000.0)
+                return ph.unlock()
+
+            tw = w.spawn(waiter, "waiter")
+            th = w.spawn(holder, "holder") if (ph is not None and spec["release_ms"] is not None) else None
+            tw.join()
+            if th is not None:
+                th.join()
+            taps.sched = None
+            nonces = [getattr(c, "_instance_id", "") or "-" for c in ctxs]
+            return {"held": held, "waiter": tw.value, "waiter_exc": type(tw.exc).__name__ if tw.exc is not None else None,
+                    "holder_unlock": th.value if th is not None else None, "nonces": nonces,
+                    "wtok": (pw._lock_token, pw.rpc_nonblocking._lock_token),
+                    "owner": None}
+        out = run_scenario(spec["seed"], body, policy="weighted", max_steps=200000)
+        taps.sched = None
+    return out, list(out.sched.events), out.value
+
+
+def retry_check(spec: dict, out, events, val):
+    """Oracle (the statement about the loop, directly) + the driver lines / expected outputs for the model."""
+    fails = []
+    if out.deadlock or out.budget or out.error is not None or out.thread_errors or val is None or val.get("waiter_exc"):
+        what = out.deadlock or ("budget" if out.budget else repr(out.error or out.thread_errors or (val or {}).get("waiter_exc")))
+        return [("retry:did-not-terminate", f"lock(timeout={spec['timeout_ms']} ms) did not return normally: {str(what)[:200]}")], [], []
+    r, elapsed = val["waiter"]
+    acq = [e for e in events if e[0] == "lockreq" and e[1] == "ACQUIRE"]
+    if spec["holder"] is not None:
+        acq = acq[1:]                                   # the holder's own lock()
+    toks = {tuple(e[2]) for e in acq}
+    granted = [i for i, e in enumerate(acq) if e[4] == e[2]]
+    T = spec["timeout_ms"]
+    if len(toks) > 1:
+        fails.append(("retry:token-changed-between-attempts", f"attempts carried {sorted(toks)}"))
+    if (r is True) != bool(granted):
+        fails.append((f"retry:result-{r}-but-{'an' if granted else 'no'}-attempt-granted", f"{len(acq)} attempts, granted at {granted}"))
+    if granted and granted[0] != len(acq) - 1:
+        fails.append(("retry:request-sent-after-success", f"{len(acq)} attempts, first grant at index {granted[0]}"))
+    if len(acq) < 1:
+        fails.append(("retry:no-attempt-made", "timeout > 0 but no ACQUIRE was sent"))
+    if len(acq) > (T + 99) // 100:
+        fails.append(("retry:more-attempts-than-the-timeout-allows", f"{len(acq)} attempts within {T} ms at a 100 ms period"))
+    if elapsed * 1000.0 > T + 100 + 1:
+        fails.append(("retry:overran-timeout", f"returned after {elapsed * 1000.0:.1f} ms (virtual) with timeout {T} ms"))
+    if r is True and (val["wtok"][0] is None or val["wtok"][0] != val["wtok"][1] or tuple(val["wtok"][0]) not in toks):
+        fails.append(("retry:granted-but-token-not-remembered", f"proxy remembers {val['wtok']}"))
+    if r is not True and val["wtok"] != (None, None):
+        fails.append(("retry:denied-but-token-remembered", f"proxy remembers {val['wtok']}"))
+    # model lines
+    n = val["nonces"]
+    lines = [f"init srv {n[0]}"] + [f"ctx {nm} {n[i + 1]}" for i, nm in enumerate(spec["ctxs"])]
+    outs = ["ok"] + [str(i + 1) for i in range(len(spec["ctxs"]))]
+    lines.append(f"proxy {spec['waiter']}")
+    outs.append("0")
+    q = 0
+    if spec["holder"] is not None:
+        lines.append(f"proxy {spec['holder']}")
+        outs.append("1")
+        q = 1
+        lines.append("lock 1 " + ("-" if spec["custom_h"] is None else "=" + spec["custom_h"]))
+        outs.append("true" if val["held"] is True else "false")
+    rel = spec["release_ms"] if (spec["holder"] is not None and spec["release_ms"] is not None) else 10 ** 7 + 50
+    lines.append(f"lockretry 0 " + ("-" if spec["custom_w"] is None else "=" + spec["custom_w"]) + f" {T} {rel} {q}")
+    outs.append(("true" if r is True else "false" if r is False else repr(r)) + f" {len(acq)}")
+    lines.append("tok 0")
+    outs.append(_show_tok(val["wtok"][0]) + " " + _show_tok(val["wtok"][1]))
+    return fails, lines, outs
+
+
+def retry_specs(rng, quick: bool) -> list:
+    S = []
+
+    def add(**kw):
+        S.append({"kind": "retry", "seed": rng.randrange(1 << 30), "ctxs": ["cli", "gui"], "holder": 1, "waiter": 2,
+                  "custom_h": None, "custom_w": None, **kw})
+    # boundaries of the timeout around the 100 ms period, holder never releases
+    for T in (1, 50, 99, 101, 150, 250, 449) + (() if quick else (199, 201, 333, 777, 1250)):
+        add(timeout_ms=T, release_ms=None)
+    # released during the wait: before the 1st retry, between retries, just too late
+    for (T, D) in ((350, 50), (350, 150), (350, 250), (350, 349), (350, 351), (250, 260), (550, 449)) + (() if quick else ((1250, 1149), (950, 5))):
+        add(timeout_ms=T, release_ms=D)
+    add(timeout_ms=250, release_ms=None, holder=None)                        # free object: one request
+    add(timeout_ms=250, release_ms=None, custom_h="x", custom_w="x", ctxs=["cli", "cli"])   # shared custom token: granted at once
+    add(timeout_ms=250, release_ms=150, custom_h="x", custom_w="y")
+    add(timeout_ms=250, release_ms=150, holder=0, waiter=0, ctxs=[])         # everybody in the owning context
+    add(timeout_ms=350, release_ms=150, custom_w="x", holder=2, waiter=1)
+    for _ in range(14 if quick else 80):
+        T = rng.choice([1, 2, 3, 4, 5, 6, 7]) * 100 + rng.randrange(1, 100)
+        D = rng.choice([None, rng.randrange(0, 8) * 100 + rng.randrange(1, 100)])
+        add(timeout_ms=T, release_ms=D, custom_h=rng.choice([None, "x"]), custom_w=rng.choice([None, "x", "y"]),
+            holder=rng.choice([0, 1, 2]), waiter=rng.choice([0, 1, 2]))
+    return S
+
+
+# ---------------------------------------------------------------------------
 # the check
 # ---------------------------------------------------------------------------
 
@@ -1240,7 +1511,8 @@ class C04(Prop):
         "taking requests from its FIFO one at a time (C03's subject); checked over interleavings by the schedule family, not proved here",
         "threading.Lock gives mutual exclusion and each of `dict.get` / `dict.__setitem__` is atomic under the GIL (premises of "
         "Props/C04Atomic.lean, whose statement list of make_unique_token is generated from the AST)",
-        "QMI_RpcProxy.lock(timeout > 0) retry loop (only the single-attempt path timeout=0 is modelled)",
+        "the float clock of lock(timeout > 0): the model counts time in whole ms and the harness never puts a timeout or a release on a "
+        "multiple of the 100 ms period; round-trip times are 0 under the virtual clock (the theorems hold for arbitrary round-trip times)",
         "str(int) of the token counter = Lean `toString` on Nat (differentially checked by every automatic lock())",
         "freshness of QMI_Context._instance_id (os.urandom(6)): the theorems assume the identifiers of distinct context instances "
         "differ (hypothesis `nonces …Nodup`); the harness reads the real identifiers and hands them to the model",
@@ -1262,7 +1534,6 @@ class C04(Prop):
         core.write_if_changed(GEN_TOKEN_FILE, render_token_gen(tp))
         self._token_prog = tp
         return [GEN_FILE, GEN_TOKEN_FILE]
-        return [GEN_FILE]
 
     # -- helpers --------------------------------------------------------------------------------
     def _run_batch(self, ctx: Ctx, hists: list, res: Result, stream: str, failures: dict):
@@ -1393,6 +1664,35 @@ class C04(Prop):
                                              f"seed={spec['seed']} change_points={spec.get('change_points')}: {detail}",
                                         {"kind": "conc", "spec": spec, "signature": sig, "seen_in_scenarios": len(lst)}))
 
+    # -- retry family -------------------------------------------------------------------------------
+    def _retry_family(self, ctx: Ctx, res: Result, quick: bool):
+        all_lines, all_outs, spans = [], [], []
+        rfail: dict = {}
+        for spec in retry_specs(ctx.rng, quick):
+            out, events, val = run_retry(spec)
+            fails, l, o = retry_check(spec, out, events, val)
+            res.note_case(("retry", spec["timeout_ms"], spec["release_ms"], spec["holder"], spec["waiter"], spec["custom_h"],
+                           spec["custom_w"], tuple(spec["ctxs"])), nontrivial=True)
+            res.count("retry_scenarios")
+            res.count("retry_result_" + str((val or {}).get("waiter", ("?",))[0]))
+            res.traces_validated += 1
+            for (sig, detail) in fails:
+                rfail.setdefault(sig, []).append((spec, detail))
+            spans.append((len(all_lines), len(l), spec))
+            all_lines += l
+            all_outs += o
+        model = LeanDriver(self.driver).run(all_lines)
+        kx = diff_streams(all_lines, all_outs, model)
+        if kx is not None:
+            for (start, ln, spec) in spans:
+                if start <= kx < start + ln:
+                    res.broken.append(Broken("correspondence", "Lock.proxyLockRetry vs QMI_RpcProxy.lock(timeout>0) (retry family)",
+                                             f"{all_lines[kx]!r}: impl={all_outs[kx]!r} model={model[kx]!r}", case={"kind": "retry", "spec": spec}))
+                    break
+        for sig, lst in rfail.items():
+            spec, detail = lst[0]
+            res.failures.append(Failure(sig, f"{sig}: {spec}: {detail}", {"kind": "retry", "spec": spec, "signature": sig}))
+
     # -- correspondence ---------------------------------------------------------------------------
     def correspondence(self, ctx: Ctx) -> Result:
         res = Result(rule="history = (server name, 1-3 client context names incl. duplicates, 1-4 proxies placed in the client contexts "
@@ -1404,6 +1704,7 @@ class C04(Prop):
                           "make_unique_token, weighted + pct policies + change-point sweeps, worker request log replayed on the model")
         failures: dict = {}
         with _Instrumented():
+            self._run_batch(ctx, corpus_histories(), res, "corpus", failures)
             self._run_batch(ctx, sweep_histories(), res, "sweep", failures)
             n = ctx.scale(400, 4000)
             max_ops = ctx.scale(40, 400)
@@ -1412,6 +1713,7 @@ class C04(Prop):
                 self._run_batch(ctx, hists[i:i + 100], res, "random", failures)
             self._report(failures, res)
         self._conc_family(ctx, res, ctx.quick)
+        self._retry_family(ctx, res, ctx.quick)
         # malformed driver input
         drv = LeanDriver(self.driver)
         lines = ["init srv a0", "ctx cli b1", "proxy 1"] + [l for l, _ in _MALFORMED]
@@ -1438,9 +1740,16 @@ class C04(Prop):
                 res.note_case(("conc-case", repr(spec)))
                 for (sig, detail) in conc_oracle(spec, out, events, results):
                     res.failures.append(Failure(sig, f"{sig}: {spec}: {detail}", {"kind": "conc", "spec": spec, "signature": sig}))
+        for b in broken:
+            if b.case and b.case.get("kind") == "retry":
+                spec = b.case["spec"]
+                out, events, val = run_retry(spec)
+                for (sig, detail) in retry_check(spec, out, events, val)[0]:
+                    res.failures.append(Failure(sig, f"{sig}: {spec}: {detail}", {"kind": "retry", "spec": spec, "signature": sig}))
         if not any(f.signature.startswith("concurrent:") for f in res.failures):
             sub = Result()
             self._conc_family(ctx, sub, False)
+            self._retry_family(ctx, sub, False)
             sub.broken = []
             res.merge(sub)
         with _Instrumented():
@@ -1475,6 +1784,14 @@ class C04(Prop):
 
     # -- replay -----------------------------------------------------------------------------------
     def replay(self, ctx: Ctx, rp: dict):
+        if rp.get("kind") == "retry":
+            spec = rp["spec"]
+            out, events, val = run_retry(spec)
+            fs = retry_check(spec, out, events, val)[0]
+            if not fs:
+                return None
+            sig, detail = next(((s_, d) for (s_, d) in fs if s_ == rp.get("signature")), fs[0])
+            return Failure(sig, f"{sig}: {detail}", rp)
         if rp.get("kind") == "conc":
             spec = rp["spec"]
             out, events, results = run_conc(spec)
